@@ -40,6 +40,12 @@ class VCardFile(File):
                 self.content,
                 "Missing header and trailer lines",
             )
+        if any((b < 0x20 and b not in b"\t\n\r") or b == 0x7F for b in c):
+            raise InvalidFileContents(
+                self.content_type,
+                self.content,
+                "Control characters are not allowed in vCards",
+            )
         if not self.addressbook.validate():
             # TODO(jelmer): Get data about what is invalid
             raise InvalidFileContents(
